@@ -911,6 +911,24 @@ def lower_rules(ctx, rule):
                  {"witness": "query 'Foo' (only the first letter is upper-case) is not lower-cased and finds nothing"})
     else:
         ctx.ok(rule, key, b.where(), "pre-check and mapping range over all of self.chars")
+    # every character of the loop is assigned its lower case: the store is on every trip (a length / identity test in front of
+    # it leaves some upper-case letters in place)
+    key = "every-char-mapped"
+    stores = [bi for bi, si, st in b.iter_stmts() if st["k"] == "assign" and st["place"]["p"] and not b.blocks[bi]["cleanup"]
+              and st["place"]["p"][0] == "deref" and b.local_ty(st["place"]["l"]).lstrip("&mut ").strip() == "char"]
+    nexts_ = [(bi, t) for bi, t in b.calls() if U.callee_is(t, "Iterator::next") and cfg.inner_header(bi) is not None]
+    nexts_ = [(bi, t) for bi, t in nexts_ if stores and cfg.inner_header(stores[0]) is not None and
+              cfg.inner_header(bi) == cfg.inner_header(stores[0])]          # the loop that does the mapping
+    if stores and nexts_:
+        nbi, nt = nexts_[0]
+        tg = nt.get("target")
+        sw = b.blocks[tg]["term"] if tg is not None else None
+        some_t = [x for v, x in sw["targets"] if v == 1] if sw is not None and sw["k"] == "switch" else []
+        if some_t and any(cfg.path_exists(some_t[0], nbi, avoid=stores) for _ in [0] if some_t[0] not in stores):
+            ctx.fail(rule, key, where(b, stores[0]), "Text::lower leaves some characters of the loop unmapped (the assignment is skipped on some trip)",
+                     {"witness": "'İ' (U+0130, lower case is two characters) stays upper-case inside a word"})
+        else:
+            ctx.ok(rule, key, where(b, stores[0]), "every character visited by the loop is assigned its lower case")
     key = "mapping"
     maps = U.calls_named(b, "<impl char>::to_lowercase")
     src = U.field_path(sy.operand(maps[0][1]["args"][0])) if maps else None
